@@ -56,11 +56,13 @@ Qed.
 Lemma seqs_len_fold_append st i bpr els :
   length (seqs (fold_left (fun s e => do_append s i bpr e true) els st)) = length (seqs st).
 Proof. revert st; induction els; simpl; intros; auto. rewrite IHels. apply seqs_len_do_append. Qed.
-Lemma seqs_len_extend st i bpr pre els f : length (seqs (extend st i bpr pre els f)) = length (seqs st).
+Lemma seqs_len_extend_gen st i bpr pre els f x : length (seqs (extend_gen st i bpr pre els f x)) = length (seqs st).
 Proof.
-  unfold extend. destruct (pre && _); auto. rewrite seqs_len_finalize, seqs_len_fold_append.
+  unfold extend_gen. destruct (pre && _); auto. rewrite seqs_len_finalize, seqs_len_fold_append.
   destruct pre; auto. unfold mk_cache. rewrite seqs_len_resize, seqs_len_set_cache. apply seqs_len_detach.
 Qed.
+Lemma seqs_len_extend st i bpr pre els f : length (seqs (extend st i bpr pre els f)) = length (seqs st).
+Proof. apply seqs_len_extend_gen. Qed.
 
 (* ---------------------------------------------------------------- detach / mk_cache *)
 Lemma wf_view_no_cache st i : wf st -> i < length (seqs st) -> is_view (getseq st i) = true ->
@@ -653,15 +655,15 @@ Proof.
   rewrite A2a, A2b. apply chain_prefix; auto. rewrite <- A2a, <- A2b. exact A3.
 Qed.
 
-Lemma extend_spec st i bpr pre els force : wf st -> i < length (seqs st) ->
-  let st' := extend st i bpr pre els force in
+Lemma extend_gen_spec st i bpr pre els force extra : wf st -> i < length (seqs st) ->
+  let st' := extend_gen st i bpr pre els force extra in
   wf st' /\
   (forall K, (is_view (getseq st i) = false -> K <= vis_end (getseq st i)) -> frame st st' i K) /\
   contents st' (getseq st' i) =
     spec_extend (if pre then contents st (getseq st i) else full st (getseq st i)) els /\
   bufbytes (getseq st' i) = bufbytes (getseq st i) /\ live (getseq st' i) = live (getseq st i).
 Proof.
-  intros W Hi. cbv zeta. unfold extend.
+  intros W Hi. cbv zeta. unfold extend_gen.
   destruct pre; cbn [andb].
   - destruct (match els with [] => true | _ :: _ => false end) eqn:Em.
     { destruct els; [|discriminate]. split; [auto|split; [intros; apply frame_refl|auto]]. }
@@ -682,7 +684,7 @@ Proof.
     destruct COa as (A1 & _ & A3 & A4 & A5 & A6).
     assert (NO : next_offset (offs (getseq sb i)) (lens (getseq sb i)) = vis_end (getseq sa i)).
     { rewrite Gb. cbn [offs lens]. apply (next_offset_chain 0); auto. }
-    rewrite NO. set (n := vis_end (getseq sa i) + sum (map (@length Z) els)).
+    rewrite NO. set (n := vis_end (getseq sa i) + sum (map (@length Z) els) + extra).
     assert (CN : c_next c = vis_end (getseq sa i)).
     { rewrite A4, CF, CL. reflexivity. }
     assert (P1 : is_view (getseq sb i) = false) by (rewrite Gb; auto).
@@ -732,3 +734,12 @@ Proof.
       pose proof (vis_end_le_frontier st i W Hi Ev).
       eapply frame_trans with (K1 := K); [apply F2; intros; lia|apply F3; intros; lia|lia].
 Qed.
+
+Lemma extend_spec st i bpr pre els force : wf st -> i < length (seqs st) ->
+  let st' := extend st i bpr pre els force in
+  wf st' /\
+  (forall K, (is_view (getseq st i) = false -> K <= vis_end (getseq st i)) -> frame st st' i K) /\
+  contents st' (getseq st' i) =
+    spec_extend (if pre then contents st (getseq st i) else full st (getseq st i)) els /\
+  bufbytes (getseq st' i) = bufbytes (getseq st i) /\ live (getseq st' i) = live (getseq st i).
+Proof. intros W Hi. apply (extend_gen_spec st i bpr pre els force 0 W Hi). Qed.
